@@ -400,7 +400,7 @@ Definition fill_value (vk row : N) : pv :=
   match vk with
   | 0 => PInt (i64_of_u64 row)
   | 1 => PFloat row
-  | 2 => PStr (row + 1)
+  | 2 => PStr row
   | 3 => PBool (N.even row)
   | 4 => POther row
   | _ => PNull
